@@ -243,4 +243,13 @@ def decPushPull (bs : Bytes) : Option (Bool × List (List Val) × Bytes × Bytes
      | none => none)
   | _ => none
 
+/-- `readRemoteState`, last step: an entry without a port (or, below protocol version 2, every entry)
+gets the configured port -/
+def normState (bindPort : Nat) (all : Bool) : List Val → List Val
+  | [a, i, m, n, .uint p, st, v] => [a, i, m, n, .uint (if all || p == 0 then bindPort else p), st, v]
+  | other => other
+
+def readRemoteState (bindPort : Nat) (all : Bool) (bs : Bytes) : Option (Bool × List (List Val) × Bytes × Bytes) :=
+  (decPushPull bs).map fun (join, sts, user, rest) => (join, sts.map (normState bindPort all), user, rest)
+
 end Swim.Msgpack
